@@ -1396,6 +1396,82 @@ static int sampMode()
     return 0;
 }
 
+// ------------------------------------------------------------------------------------------------ gnat mode
+// "gnat": NearestNeighborsGNAT on an integer lattice (every distance is shared by several elements: exact ties).
+//     gnat seed=<s> side=<n> k=<k> [nts=1]
+// adds the side*side lattice points in row order, then asks nearestK / nearestR around a few lattice points and
+// prints the ids of the answers IN ORDER.  The exhaustive answer (sorted by (distance, id)) is printed as well, so the
+// check can tell "same set, different order among ties" from a wrong answer.  Run in two processes whose heaps are laid
+// out differently (C20_HEAP_NOISE): with elements ordered by ADDRESS on ties the printed orders differ.
+#include <ompl/datastructures/NearestNeighborsGNAT.h>
+#include <ompl/datastructures/NearestNeighborsGNATNoThreadSafety.h>
+
+static int gnatMode()
+{
+    ompl::msg::noOutputHandler();
+    heapNoise();
+    std::string line;
+    while (vp::readLine(line))
+    {
+        auto t = vp::tokens(line);
+        if (t.empty())
+            continue;
+        auto a = kv(t);
+        if (t[0] != "gnat" || a.count("?") || !a.count("seed") || !a.count("side") || !a.count("k") ||
+            !vp::parseNat(a["seed"]) || !vp::parseNat(a["side"]) || !vp::parseNat(a["k"]) || *vp::parseNat(a["side"]) > 200)
+        {
+            std::cout << "bad-op\n";
+            continue;
+        }
+        ompl::RNG::setSeed(*vp::parseNat(a["seed"]));
+        const unsigned long side = *vp::parseNat(a["side"]), k = *vp::parseNat(a["k"]);
+        using P = unsigned long;  // id = y*side + x
+        auto dist = [side](const P &p, const P &q) {
+            double dx = (double)(p % side) - (double)(q % side), dy = (double)(p / side) - (double)(q / side);
+            return std::sqrt(dx * dx + dy * dy);
+        };
+        std::shared_ptr<ompl::NearestNeighbors<P>> nn;
+        if (a.count("nts") && a["nts"] == "1")
+            nn = std::make_shared<ompl::NearestNeighborsGNATNoThreadSafety<P>>();
+        else
+            nn = std::make_shared<ompl::NearestNeighborsGNAT<P>>();
+        nn->setDistanceFunction(dist);
+        for (P i = 0; i < side * side; ++i)
+            nn->add(i);
+        std::string out, ex;
+        Fnv order;
+        for (P q : {side * (side / 2) + side / 2, side * (side / 3) + side / 4, (P)0, side * side - 1})
+        {
+            std::vector<P> nbh;
+            nn->nearestK(q, k, nbh);
+            out += " K" + std::to_string(q) + ":";
+            for (P v : nbh)
+            {
+                out += std::to_string(v) + ",";
+                order.u64(v);
+            }
+            nbh.clear();
+            nn->nearestR(q, 2.0, nbh);
+            out += " R" + std::to_string(q) + ":";
+            for (P v : nbh)
+            {
+                out += std::to_string(v) + ",";
+                order.u64(v);
+            }
+            // exhaustive nearestK, ties by id
+            std::vector<std::pair<double, P>> all;
+            for (P i = 0; i < side * side; ++i)
+                all.emplace_back(dist(q, i), i);
+            std::sort(all.begin(), all.end());
+            ex += " K" + std::to_string(q) + ":";
+            for (size_t i = 0; i < k && i < all.size(); ++i)
+                ex += vp::bits(all[i].first) + ",";
+        }
+        std::cout << "order=" << order.hex() << " answers" << out << " | exhaustive-distances" << ex << "\n";
+    }
+    return 0;
+}
+
 int main()
 {
     alarm(300);  // watchdog only: kills the process, never influences an answer
@@ -1409,6 +1485,8 @@ int main()
         return planMode();
     if (hdr.size() == 1 && hdr[0] == "samp")
         return sampMode();
+    if (hdr.size() == 1 && hdr[0] == "gnat")
+        return gnatMode();
     std::cout << "bad-header\n";
     return 2;
 }
